@@ -841,6 +841,13 @@ class Folder:
             return out
         if fn == "round" and len(args) in (1, 2) and all(isinstance(a, (int, float)) and not isinstance(a, bool) for a in args):
             return round(*args)
+        if fn.startswith("math.") and fn.split(".")[1] in ("copysign", "fabs", "isclose", "pow", "atan2", "degrees", "radians", "gcd", "factorial", "perm", "isfinite", "isnan", "trunc", "hypot") \
+                and args and all(isinstance(a, (int, float)) and not isinstance(a, bool) for a in args) and all(isinstance(v, (int, float)) for v in kwargs.values()):
+            import math as _m
+            try:
+                return getattr(_m, fn.split(".")[1])(*args, **kwargs)
+            except (ValueError, OverflowError):
+                raise Raised("ValueError", e)
         if fn in ("math.remainder", "math.fmod") and len(args) == 2 and all(isinstance(a, (int, float)) or (isinstance(a, sp.Basic) and a.is_number and a.is_real) for a in args):
             import math as _m
             return getattr(_m, fn.split(".")[1])(*[float(a) for a in args])
@@ -915,6 +922,16 @@ class Folder:
                 return ast.literal_eval(args[0])
             except Exception:
                 raise Undecidable(f"eval({args[0]!r})")
+        if fn == "setattr" and len(args) == 3 and isinstance(args[1], str):
+            if isinstance(args[0], Rec):
+                args[0].fields[args[1]] = args[2]
+                return None
+            if getattr(args[0], "_sa_model", False):
+                setattr(args[0], args[1], args[2])
+                return None
+            raise Undecidable(f"setattr on {args[0]!r}")
+        if fn == "getattr" and len(args) in (2, 3) and isinstance(args[1], str) and isinstance(args[0], Rec) and (args[1] in args[0].fields or len(args) == 3):
+            return args[0].fields.get(args[1], args[2] if len(args) == 3 else None)
         if fn == "hasattr" and len(args) == 2 and isinstance(args[1], str):
             if isinstance(args[0], Rec):
                 return args[1] in args[0].fields or args[1] in ("__iter__",) and isinstance(args[0].fields.get("_iter"), list)
